@@ -70,9 +70,10 @@ Print Assumptions C11_own_allocations_only.
    copy is an own-allocations-only program while sorting in place is not *)
 Example C11_effects_example :
   forallb (fun m => fmem m (writers operand_writes operand_calls)) mutators = true /\
-  forallb (fun f => existsb (fun r => String.eqb (fst r) f) operand_roots) readonly_ops = true /\
+  (forallb (fun f => existsb (fun r => String.eqb (fst r) f) operand_roots) readonly_ops
+   && forallb (fun r => fmem r operand_roots) readonly_roots)%bool = true /\
   protected_root ("sbom.NodeList.Equal", 1) = true /\ protected_root ("sbom.NodeList.Add", 1) = true /\
-  protected_root ("sbom.NodeList.Add", 0) = false /\
+  protected_root ("sbom.NodeList.Add", 0) = false /\ protected_root ("writer.Writer.WriteStream", 1) = true /\
   (let h := [ (0, HArr [HS "b"; HS "a"]) ] in
    fresh_only 1 [OAlloc (HArr [HS "b"; HS "a"]); OStore 1 (HArr [HS "a"; HS "b"])] = true /\
    fresh_only 1 [OStore 0 (HArr [HS "a"; HS "b"])] = false /\
